@@ -29,7 +29,7 @@ func init() {
 }
 
 var c07Atoms = []string{"a", "b", "c", "ab", "abc", "x", "-", "/", "1", "12345", "é", "ü", "ß", "日", "本", "語", "😀", "𝄞", "é", "à́", " ", "  ", "\t", "\n", "\r", "\r\n", " ", " ", " ", "aa", "aaa", "bar", "--", "A", "B", "C",
-	"\uFFFD", "\uFEFF", "\u0085", "\u200B", "\u2028", "\uFFFD\uFFFD", "a\uFFFDb", "\U0010FFFF", "\uE000", "\u007F", "\u0001", "\uD7FF", "\uFFFE"}
+	"\uFFFD", "\uFEFF", "\u0085", "\u200B", "\u2028", "\uFFFD\uFFFD", "a\uFFFDb", "\U0010FFFF", "\uE000", "\u007F", "\u0001", "\uD7FF", "\uFFFE", "Р", "上", "†", "č", "😊", "\u2009", "\u200A", "\u0120", "\u010A", "\u010D", "\u0109"}
 
 func genStr(g *rng.R) string {
 	switch g.Intn(10) {
@@ -41,6 +41,25 @@ func genStr(g *rng.R) string {
 	n := g.Range(1, 7)
 	var sb strings.Builder
 	for i := 0; i < n; i++ {
+		if g.P(12) {
+			// any Unicode scalar value (no surrogates), uniformly within a randomly chosen plane class
+			var c rune
+			switch g.Intn(4) {
+			case 0:
+				c = rune(g.Range(0x80, 0x7FF))
+			case 1:
+				c = rune(g.Range(0x800, 0xFFFF))
+			case 2:
+				c = rune(g.Range(0x10000, 0x1FFFF))
+			default:
+				c = rune(g.Range(0x80, 0x10FFFF))
+			}
+			if c >= 0xD800 && c <= 0xDFFF {
+				c = 0x4E0A
+			}
+			sb.WriteRune(c)
+			continue
+		}
 		sb.WriteString(rng.Pick(g, c07Atoms))
 	}
 	return sb.String()
